@@ -196,6 +196,9 @@ pub fn case_strategy(max: usize) -> BoxedStrategy<Case> {
                 rules.push(assemble_rule(format!("r{idn:02}"), src, Vec::new(), &a));
                 order.push(k);
             }
+            if idseed % 3 == 0 {
+                rename_tricky(&mut rules, idseed as usize / 3);
+            }
             Case { rules, order, sampling_override }
         })
         .boxed()
